@@ -379,20 +379,23 @@ def part_dirs(_):
                         snap2['log'] != cfh.device_log_fingerprint(dev2) or snap2['param'] != cfh.device_param_fingerprint(dev2):
                     p.violation('cache:stored_tables_not_reloaded', 'second session with the rw cache: %r' % (snap2,), rp)
     # checksum collision: both tables announce the same checksum
-    for order in ('fresh', 'log_file_present', 'param_file_present'):
+    # (tables of different sizes, and of the same size: the stored file then also has the announced number of entries)
+    for order, nlog, nparam in [(o, a, b) for (a, b) in ((3, 4), (3, 3), (1, 1)) for o in ('fresh', 'log_file_present',
+                                                                                           'param_file_present')]:
         crc = 0x0C0111DE
-        dev = _device(3, 4, crc, crc)
+        dev = _device(nlog, nparam, crc, crc)
         with tempfile.TemporaryDirectory() as d:
             if order == 'log_file_present':
                 TocCache(rw_cache=d).insert(crc, _elements_from_device(dev, 'log'))
             elif order == 'param_file_present':
                 TocCache(rw_cache=d).insert(crc, _elements_from_device(dev, 'param'))
-            snaps = [_connect_once(_device(3, 4, crc, crc), {'rw_cache': d}) for _ in range(2)]
+            snaps = [_connect_once(_device(nlog, nparam, crc, crc), {'rw_cache': d}) for _ in range(2)]
             for si, snap in enumerate(snaps):
-                p.case(key=('collision', order, si), outcome=('collision', snap.get('n'), tuple(snap.get('log_cls', ())), tuple(snap.get('param_cls', ()))),
+                p.case(key=('collision', order, nlog, nparam, si), outcome=('collision', snap.get('n'), tuple(snap.get('log_cls', ())), tuple(snap.get('param_cls', ()))),
                        sample={'collision': order, 'session': si, 'log_element_classes': snap.get('log_cls'),
                                'param_element_classes': snap.get('param_cls')})
-                rp = {'part': 'collision', 'order': order, 'session': si}
+                rp = {'part': 'collision', 'order': order, 'session': si, 'nlog': nlog, 'nparam': nparam}
+                order = '%s:%dlog_%dparam' % (order.split(':')[0], nlog, nparam)
                 if snap['status'] != 'ok' or snap.get('n') != 1:
                     p.violation('cache:collision:connect_failed', 'log and param checksum both %08X (%s, session %d): %r' % (
                         crc, order, si, {k: snap.get(k) for k in ('status', 'n', 'failed', 'died')}), rp)
@@ -416,7 +419,7 @@ def run(ck):
                'connect level: a real connect with the rw cache file cut at every byte (1- and 3-entry tables) or at a stride '
                'plus both ends (40 entries): connected once, tables equal the device, truncated file downloaded and rewritten '
                'whole, complete file used without any element request; 11 directory combinations with a hash of the read-only '
-               'tree; log/param checksum collision in 3 storing orders x 2 sessions. distinct = (table, cut position)')
+               'tree; log/param checksum collision in 3 storing orders x 3 table-size pairs (different and equal sizes) x 2 sessions. distinct = (table, cut position)')
     ck.assume('crash model: the cache file after a crash is a prefix of the intended content (open/write/close, no rename)')
     ck.assume('SimCF announces the checksums; element objects for the stored table are built with the library\'s own element '
               'classes from wire bytes, as a download does')
@@ -443,6 +446,8 @@ def replay(ck, data):
     part = data.get('part')
     if part == 'fetch':
         ck.merge(part_fetch((data['which'], data['n'], data['ext'], data['cut'], data['cut'])))
+    elif part in ('dirs', 'collision'):
+        ck.merge(part_dirs(None))
     elif part == 'connect':
         print('connect-level case: re-run the check;', data)
     else:
